@@ -81,6 +81,7 @@ type ReplayFile struct {
 	Verdict Violation      `json:"verdict"`
 	Min     map[string]int `json:"minimised_from,omitempty"`
 	Sample  any            `json:"workload_sample,omitempty"`
+	FromSeed bool          `json:"from_seed,omitempty"`
 }
 
 type Finding struct {
@@ -224,7 +225,7 @@ func (b *build) worker(gomaxprocs int, args ...string) *exec.Cmd {
 	cmd := exec.Command(b.bin, append([]string{"-test.run", "^TestWorker$", "-test.timeout", "0", "-sites", b.sites}, args...)...)
 	cmd.Dir = filepath.Join(verifDir, "sim", "props")
 	env := os.Environ()
-	env = append(env, "GOMAXPROCS="+strconv.Itoa(gomaxprocs), "GOTRACEBACK=all")
+	env = append(env, "GOMAXPROCS="+strconv.Itoa(gomaxprocs), "GOTRACEBACK=all", "GORACE=halt_on_error=0 exitcode=66 history_size=3")
 	cmd.Env = env
 	return cmd
 }
@@ -326,6 +327,7 @@ func check(prop string, pc propConf, tier string) int {
 		trouble []string
 		crashes []RunResult
 		next    int
+		thirdParty = map[string]int{}
 	)
 	deadline := time.Now().Add(budget)
 	var wg sync.WaitGroup
@@ -357,8 +359,21 @@ func check(prop string, pc propConf, tier string) int {
 				var s Summary
 				ob, rerr := os.ReadFile(out)
 				okSum := rerr == nil && json.Unmarshal(bytes.TrimSpace(ob), &s) == nil && s.Prop == prop
+				raceExit := false
+				if ee, ok := err.(*exec.ExitError); ok && (ee.ExitCode() == 66 || (ee.ExitCode() == 1 && strings.Contains(eb.String(), "race detected during execution of test"))) {
+					// the race detector reported something: the test binary exits non-zero although every run completed
+					raceExit = true
+				}
 				mu.Lock()
-				if okSum && err == nil {
+				if okSum && raceExit {
+					rv, rt := raceReports(prop, tier, eb.String())
+					crashes = append(crashes, rv...)
+					trouble = append(trouble, rt...)
+					for k, v := range raceThirdParty(eb.String()) {
+						thirdParty[k] += v
+					}
+				}
+				if okSum && (err == nil || raceExit) {
 					sums = append(sums, s)
 					if len(s.Violations) > 0 {
 						// violations found: no need to spend the whole budget on a broken tree
@@ -420,6 +435,9 @@ func check(prop string, pc propConf, tier string) int {
 		}
 		viols = append(viols, s.Violations...)
 	}
+	for k, v := range thirdParty {
+		total.Notes["data-race-report-wholly-in-third-party-code:"+k] += v
+	}
 	viols = append(viols, crashes...)
 	sort.Slice(viols, func(i, j int) bool { return viols[i].Seed < viols[j].Seed })
 	if total.Runs == 0 {
@@ -472,7 +490,8 @@ func check(prop string, pc propConf, tier string) int {
 				verdict = x
 			}
 		}
-		jobs = append(jobs, &job{sig: sig, verdict: verdict, rf: ReplayFile{Prop: prop, Seed: v.Seed, Tier: tier, Mode: v.Mode, Tape: v.Tape, Verdict: verdict, Sample: v.Sample}})
+		fromSeed := strings.Contains(sig, "/FATAL/") || strings.Contains(sig, "/DATA-RACE/")
+		jobs = append(jobs, &job{sig: sig, verdict: verdict, rf: ReplayFile{Prop: prop, Seed: v.Seed, Tier: tier, Mode: v.Mode, Tape: v.Tape, Verdict: verdict, Sample: v.Sample, FromSeed: fromSeed}})
 	}
 	// minimise + confirm the signatures in parallel (independent worker processes)
 	var jwg sync.WaitGroup
@@ -521,6 +540,117 @@ func firstLine(s string) string {
 		s = s[:400] + "…"
 	}
 	return s
+}
+
+// raceReports extracts the data race reports of a worker's stderr. A report with a pandora frame is a verdict
+// for the seed whose BEGIN line precedes it; a report whose stacks lie wholly in the harness is harness trouble.
+func raceReports(prop, tier, stderr string) (viols []RunResult, trouble []string) {
+	seen := map[string]bool{}
+	rest := stderr
+	off := 0
+	for {
+		i := strings.Index(rest, "WARNING: DATA RACE")
+		if i < 0 {
+			break
+		}
+		j := strings.Index(rest[i:], "==================\n")
+		block := rest[i:]
+		if j >= 0 {
+			block = rest[i : i+j]
+		}
+		before := stderr[:off+i]
+		ms := beginRe.FindAllStringSubmatch(before, -1)
+		var seed uint64
+		if len(ms) > 0 {
+			seed, _ = strconv.ParseUint(ms[len(ms)-1][2], 10, 64)
+		}
+		sig, kind := raceSignature(prop, block)
+		switch kind {
+		case "pandora":
+			if !seen[sig] {
+				seen[sig] = true
+				viols = append(viols, RunResult{Prop: prop, Seed: seed, Tier: tier, Tape: TapeData{Seed: seed}, Viol: []Violation{{Sig: sig, Detail: cut(block, 6000)}}})
+			}
+		case "harness":
+			// the harness's own bookkeeping (shared slices and counters of its tasks) is serialised by the
+			// scheduler, whose synchronisation is hidden from the detector on purpose: not a finding
+		}
+		adv := i + len("WARNING: DATA RACE")
+		rest = rest[adv:]
+		off += adv
+	}
+	return
+}
+
+var raceFrameRe = regexp.MustCompile(`(?m)^  (\S+)\(\)\s*$`)
+
+// raceSignature classifies one report. Each of the two access stacks is attributed to the code that made
+// the access: "harness" if the innermost non-runtime frame is simulator / harness code (its bookkeeping is
+// serialised by the scheduler, whose synchronisation is hidden from the detector on purpose) or if the stack has
+// harness frames but no pandora frame at all; "pandora" if the access was made by pandora code or by a library
+// called from pandora code; "third-party" otherwise (library goroutines). A report is a finding when no side is
+// the harness and at least one side is pandora; its signature is the innermost pandora function of each side.
+func raceSignature(prop, block string) (string, string) {
+	parts := regexp.MustCompile(`(?m)^(?:Write at|Read at|Previous write at|Previous read at|Previous atomic write at|Previous atomic read at|Atomic write at|Atomic read at|Goroutine \d+ \()`).Split(block, -1)
+	var fr []string
+	sides := map[string]int{}
+	for k, p := range parts {
+		if k == 0 || k > 2 {
+			continue // only the two access stacks
+		}
+		first, pandora, harness := "", "", false
+		for _, m := range raceFrameRe.FindAllStringSubmatch(p, -1) {
+			f := m[1]
+			isRuntime := strings.HasPrefix(f, "runtime.") || strings.HasPrefix(f, "internal/") || strings.HasPrefix(f, "sync.") || strings.HasPrefix(f, "sync/atomic.") || strings.HasPrefix(f, "reflect.")
+			if first == "" && !isRuntime {
+				first = f
+			}
+			if pandora == "" && strings.Contains(f, "github.com/yandex/pandora/") {
+				pandora = strings.TrimPrefix(f, "github.com/yandex/pandora/")
+			}
+			if strings.HasPrefix(f, "verifsim/") {
+				harness = true
+			}
+		}
+		switch {
+		case strings.HasPrefix(first, "verifsim/"):
+			sides["harness"]++
+		case pandora != "":
+			sides["pandora"]++
+			fr = append(fr, pandora)
+		case harness:
+			sides["harness"]++
+		default:
+			sides["third-party"]++
+		}
+	}
+	switch {
+	case sides["harness"] > 0:
+		return "", "harness"
+	case sides["pandora"] > 0:
+		sort.Strings(fr)
+		return prop + "/DATA-RACE/" + strings.Join(fr, "+"), "pandora"
+	}
+	return "", "third-party"
+}
+
+func raceThirdParty(stderr string) map[string]int {
+	out := map[string]int{}
+	for _, b := range strings.Split(stderr, "WARNING: DATA RACE")[1:] {
+		_, kind := raceSignature("", b)
+		if kind == "harness" {
+			out["(harness bookkeeping, ignored)"]++
+		}
+		if kind == "third-party" {
+			m := raceFrameRe.FindStringSubmatch(b)
+			k := "unknown"
+			if m != nil {
+				k = m[1]
+			}
+			out[k]++
+		}
+	}
+	return out
 }
 
 var beginRe = regexp.MustCompile(`BEGIN property=(\S+) seed=(\d+)`)
@@ -572,10 +702,13 @@ func minimiseAndConfirm(b *build, rf ReplayFile) (string, bool, string) {
 	jb, _ := json.MarshalIndent(rf, "", " ")
 	os.WriteFile(raw, jb, 0o644)
 	minOut := filepath.Join(b.dir, "min-"+name)
-	cmd := b.worker(1, "-minimise", raw, "-out", minOut, "-deadline", "20s")
+	var err error = fmt.Errorf("not minimised")
 	var eb bytes.Buffer
-	cmd.Stderr, cmd.Stdout = &eb, &eb
-	err := cmd.Run()
+	if !rf.FromSeed {
+		cmd := b.worker(1, "-minimise", raw, "-out", minOut, "-deadline", "20s")
+		cmd.Stderr, cmd.Stdout = &eb, &eb
+		err = cmd.Run()
+	}
 	use := raw
 	if err == nil {
 		use = minOut
@@ -602,6 +735,15 @@ func confirm(b *build, path, sig string) (bool, string) {
 	var eb bytes.Buffer
 	cmd.Stderr, cmd.Stdout = &eb, &eb
 	err := cmd.Run()
+	if strings.Contains(sig, "/DATA-RACE/") {
+		vs, _ := raceReports(strings.SplitN(sig, "/", 2)[0], "", eb.String())
+		for _, v := range vs {
+			if v.Viol[0].Sig == sig {
+				return true, ""
+			}
+		}
+		return false, "the replay shows no such data race report"
+	}
 	ob, _ := os.ReadFile(out)
 	var rr RunResult
 	if json.Unmarshal(bytes.TrimSpace(ob), &rr) == nil {
@@ -618,6 +760,15 @@ func confirm(b *build, path, sig string) (bool, string) {
 	}
 	if err != nil && strings.Contains(sig, "/FATAL/") && strings.Contains(eb.String(), "fatal error: ") {
 		return true, ""
+	}
+	if strings.Contains(sig, "/DATA-RACE/") {
+		vs, _ := raceReports(strings.SplitN(sig, "/", 2)[0], "", eb.String())
+		for _, v := range vs {
+			if v.Viol[0].Sig == sig {
+				return true, ""
+			}
+		}
+		return false, "the replay shows no such data race report"
 	}
 	return false, fmt.Sprintf("replay failed: %v %s", err, cut(eb.String(), 500))
 }
@@ -653,6 +804,23 @@ func doReplay(path string) int {
 			return 1
 		}
 		die(2, "replay worker failed: %v", err)
+	}
+	if strings.Contains(rf.Verdict.Sig, "/DATA-RACE/") {
+		// the worker's stderr went to ours; run once more capturing it to find the report
+		c2 := b.worker(1, "-replay", path, "-out", out)
+		var eb2 bytes.Buffer
+		c2.Stderr, c2.Stdout = &eb2, &eb2
+		c2.Run()
+		vs, _ := raceReports(rf.Prop, "", eb2.String())
+		for _, v := range vs {
+			if v.Viol[0].Sig == rf.Verdict.Sig {
+				fmt.Fprintln(os.Stderr, v.Viol[0].Detail)
+				fmt.Printf("VIOLATION property=%s replay=%s\n", rf.Prop, path)
+				return 1
+			}
+		}
+		fmt.Fprintf(os.Stderr, "vcheck: replay of %s no longer shows %s\n", path, rf.Verdict.Sig)
+		return 0
 	}
 	for _, l := range rr.Trace {
 		fmt.Fprintln(os.Stderr, "  ", l)
